@@ -60,3 +60,6 @@ Proof.
   eapply (saturate_sound_multi _ _ (fun t => In t (direct_from 0 ss))); [|exact H].
   intros y Hy. apply (proj1 (dedupN_In _ _)) in Hy. exists y. split; [exact Hy | apply rt_refl].
 Qed.
+
+Corollary validated_always_closed ss : snd (validated ss) = true.
+Proof. unfold validated. cbn [snd]. apply saturate_closed. Qed.
